@@ -27,7 +27,7 @@ import numpy as np
 PID = "C13"
 
 import holopy as hp
-from holopy.scattering import Sphere, calc_holo, Mie, MieLens
+from holopy.scattering import Sphere, Spheres, calc_holo, Mie, MieLens
 from holopy.inference import prior, AlphaModel, NmpfitStrategy, LeastSquaresScipyStrategy
 from holopy.core.io import serialize
 import io as _io
@@ -145,6 +145,218 @@ def reload_event(cfg, snap, loaded, model):
     return ev
 
 
+# ---------------------------------------------------------------------------------------------
+# front end: hp.fit(data, scatterer | model, parameters, strategy)   (spec/FitFrontEnd.tla)
+def fe_objects(q, rng):
+    """the user's objects for one request: base scatterer (centre written as list/tuple/array),
+    data generated from it with scaling 0.75 (the default model's alpha guess)"""
+    def cont(c):
+        return {"list": list, "tuple": tuple, "array": np.array}[q["container"]](c)
+    c0 = [rng.uniform(1.3, 1.9), rng.uniform(1.3, 1.9), rng.uniform(5.0, 8.0)]
+    s0 = Sphere(n=1.59, r=rng.uniform(0.4, 0.6), center=cont(c0))
+    if q["scat"] == "sphere":
+        scat, truth = s0, {"n": 1.59, "r": s0.r, "x": c0[0], "y": c0[1], "z": c0[2]}
+    else:
+        # far enough apart (> 30 radii) for the default theory to be Mie superposition: the property
+        # quantifies over Mie and lens theories, not over the iterative cluster solver
+        c1 = [c0[0] + rng.uniform(19.0, 20.0), c0[1] - rng.uniform(0.0, 0.3), c0[2] + rng.uniform(0.2, 0.6)]
+        s1 = Sphere(n=1.45, r=rng.uniform(0.3, 0.45), center=cont(c1))
+        scat = Spheres([s0, s1])
+        truth = {"0:n": 1.59, "0:r": s0.r, "0:x": c0[0], "0:y": c0[1], "0:z": c0[2],
+                 "1:n": 1.45, "1:r": s1.r, "1:x": c1[0], "1:y": c1[1], "1:z": c1[2]}
+    truth["alpha"] = 0.75
+    det = hp.core.update_metadata(hp.detector_grid(14, 0.25), **KW)
+    data = calc_holo(det, scat, scaling=0.75)
+    return scat, data, truth
+
+
+def fe_params(q, rng):
+    r = q["params"]
+    if r[0] == "all":
+        return None
+    names = sorted(r[1])
+    rng.shuffle(names)
+    names = ["r" if (n == "bogus" and q["scat"] == "cluster2" and rng.random() < 0.5) else n for n in names]
+    if len(names) == 1 and rng.random() < 0.5:
+        return names[0]
+    return names if rng.random() < 0.7 else tuple(names)
+
+
+def fe_strategy(form):
+    return {"none": None, "name_nmpfit": "nmpfit", "name_scipy": "scipy lsq", "class_nmpfit": NmpfitStrategy,
+            "class_scipy": LeastSquaresScipyStrategy, "object_nmpfit": NmpfitStrategy(),
+            "object_scipy": LeastSquaresScipyStrategy(), "name_sampler": "emcee", "not_a_strategy": 3}[form]
+
+
+def fe_model(q, scat, truth):
+    """entry = model: the user's own model frees the first radius and z through named priors"""
+    names = ["r", "z"] if q["scat"] == "sphere" else ["0:r", "0:z"]
+    def first(s):
+        c = list(s.center)
+        return Sphere(n=s.n, r=prior.Uniform(0, np.inf, guess=truth[names[0]], name=names[0]),
+                      center=[c[0], c[1], prior.Uniform(-np.inf, np.inf, guess=truth[names[1]], name=names[1])])
+    sc = first(scat) if q["scat"] == "sphere" else Spheres([first(scat.scatterers[0]), scat.scatterers[1]], warn=False)
+    return AlphaModel(sc, noise_sd=1, alpha=prior.Uniform(0.5, 1, name="alpha"))
+
+
+def front_end(ctx, rng, quick):
+    from holopy.inference.interface import make_default_model
+    warnings.simplefilter("ignore")
+    g = ctx.tlc_graph("FitFrontEnd", "FitFrontEnd.cfg")
+    exp_of = {}
+    for e in g.edges:
+        if e[1] == "Call" and g.states[e[0]]["calls"] == 0:
+            exp_of[e[0]] = g.states[e[3]]["outcome"]
+    inits = sorted(g.init, key=lambda s: repr(sorted((k, repr(v)) for k, v in g.states[s]["req"].items())))
+    if not exp_of or len(exp_of) != len(inits):
+        raise harness.MachineryError("FitFrontEnd graph: %d initial states, %d Call edges" % (len(inits), len(exp_of)))
+    # 1. the default model itself for every scatterer-entry request (cheap: no fit)
+    seen_actions = {"model_built": 0, "model_refused": 0, "fit": 0, "refused": 0}
+    for sid in inits:
+        q = g.states[sid]["req"]
+        if q["entry"] != "scatterer" or q["strategy"] != "none":
+            continue
+        exp = exp_of[sid]
+        scat, data, truth = fe_objects(q, rng)
+        params = fe_params(q, rng)
+        before = yaml_text(scat)
+        ctx.case(("default_model", q["scat"], q["container"], repr(q["params"])), nontrivial=q["params"][0] != "all")
+        key = "%s/%s" % (q["scat"], q["container"])
+        try:
+            with warnings.catch_warnings():
+                warnings.simplefilter("ignore")
+                model = make_default_model(scat, params)
+        except (ValueError, KeyError) as ex:
+            if exp["kind"] == "refused":
+                seen_actions["model_refused"] += 1
+                ctx.trace_ok()
+            else:
+                ctx.violation("frontend/default_model/refused_valid_request/" + key,
+                              {"req": q, "parameters": repr(params), "exc": repr(ex)[:200]})
+            continue
+        except Exception as ex:
+            ctx.violation("frontend/default_model/exception/" + key, {"req": q, "parameters": repr(params), "exc": repr(ex)[:200]})
+            continue
+        seen_actions["model_built"] += 1
+        bad = None
+        names = list(model.parameters)
+        if exp["kind"] == "refused":
+            bad = ("accepted_unknown_parameter", {"impl": names})
+        elif names != list(exp["names"]):
+            bad = ("names", {"impl": names, "spec": list(exp["names"])})
+        else:
+            for n, pr in model.parameters.items():
+                lo = 0.5 if n == "alpha" else (0 if n.split(":")[-1] in ("n", "r") else -np.inf)
+                hi = 1 if n == "alpha" else np.inf
+                if not (pr.lower_bound == lo and pr.upper_bound == hi and abs(pr.guess - truth[n]) <= 1e-15 * abs(truth[n])):
+                    bad = ("prior", {"name": n, "impl": repr(pr), "want_guess": truth[n]})
+            # everything not freed keeps its value
+            fixed = model.scatterer.parameters
+            flat = {}
+            def walk(prefix, v):
+                if isinstance(v, dict):
+                    for k, x in v.items():
+                        walk(prefix + str(k), x)
+                elif isinstance(v, (list, tuple, np.ndarray)):
+                    for i, x in enumerate(v):
+                        walk(prefix + "." + str(i), x)
+                else:
+                    flat[prefix] = v
+            walk("", fixed)
+            for k, v in flat.items():
+                if isinstance(v, prior.Prior):
+                    continue
+                kk = k.replace("center.0", "x").replace("center.1", "y").replace("center.2", "z")
+                if kk in truth and not float(v) == float(truth[kk]):
+                    bad = ("fixed_value", {"name": kk, "impl": float(v), "want": truth[kk]})
+        if bad is None and yaml_text(scat) != before:
+            bad = ("base_scatterer_changed", {})
+        if bad:
+            ctx.violation("frontend/default_model/%s/%s" % (bad[0], key), dict(bad[1], req=q, parameters=repr(params)))
+        else:
+            ctx.trace_ok()
+    # 2. real fits through hp.fit, twice with the same objects
+    # real fits for the single sphere only: a second sphere 20 um away is barely constrained by a small
+    # detector, and how far an ill-conditioned parameter drifts is not what the property states; the
+    # cluster requests are checked structurally (part 1: names, order, bounds, guesses, fixed values)
+    pool = [s for s in inits if g.states[s]["req"]["scat"] == "sphere"]
+    nfit = 40 if quick else 600
+    # every strategy form, container, entry and scatterer kind at least once: stratified draw
+    chosen, buckets = [], {}
+    for s in pool:
+        q = g.states[s]["req"]
+        buckets.setdefault((q["strategy"], q["entry"], q["scat"]), []).append(s)
+    keys = sorted(buckets)
+    while len(chosen) < nfit and keys:
+        for k in list(keys):
+            if not buckets[k]:
+                keys.remove(k)
+                continue
+            chosen.append(buckets[k].pop(rng.randrange(len(buckets[k]))))
+            if len(chosen) >= nfit:
+                break
+    events = []
+    for sid in chosen:
+        q = g.states[sid]["req"]
+        exp = exp_of[sid]
+        scat, data, truth = fe_objects(q, rng)
+        params = fe_params(q, rng)
+        strat = fe_strategy(q["strategy"])
+        target = fe_model(q, scat, truth) if q["entry"] == "model" else scat
+        before = (yaml_text(scat), fp.fingerprint(data), yaml_text(target),
+                  yaml_text(strat) if q["strategy"].startswith("object") else None)
+        key = "%s/%s/%s/%s" % (q["entry"], q["scat"], q["container"], q["strategy"])
+        ctx.case(("fit", key, repr(q["params"])), nontrivial=True)
+        res = []
+        refused = None
+        for call in range(2):
+            try:
+                np.random.seed(7)
+                with warnings.catch_warnings():
+                    warnings.simplefilter("ignore")
+                    res.append(hp.fit(data, target, parameters=params, strategy=strat))
+            except (ValueError, KeyError) as ex:
+                refused = ex
+                break
+            except Exception as ex:
+                ctx.violation("frontend/fit/exception/" + key, {"req": q, "parameters": repr(params), "call": call + 1,
+                                                                "exc": repr(ex)[:200]})
+                refused = False
+                break
+        if refused is False:
+            continue
+        if refused is not None:
+            if exp["kind"] == "refused":
+                seen_actions["refused"] += 1
+                ctx.trace_ok()
+            else:
+                ctx.violation("frontend/fit/refused_valid_request/" + key, {"req": q, "parameters": repr(params),
+                                                                            "exc": repr(refused)[:200]})
+            continue
+        if exp["kind"] == "refused":
+            ctx.violation("frontend/fit/accepted_%s/%s" % (exp["why"], key), {"req": q, "parameters": repr(params)})
+            continue
+        seen_actions["fit"] += 1
+        r1, r2 = res
+        ev = {"event": "FrontEndFit", "cfg": key}
+        ev["names_ok"] = bool(list(r1.parameters) == list(exp["names"]))
+        ev["strategy_ok"] = bool(type(r1.strategy).__name__ == {"nmpfit": "NmpfitStrategy",
+                                                              "scipy": "LeastSquaresScipyStrategy"}[exp["strategy"]])
+        ev["mb_param_error"] = quant.mb(max(abs(float(v) - truth[k]) / abs(truth[k]) for k, v in r1.parameters.items())) \
+            if ev["names_ok"] else 20000
+        ev["mb_repeat"] = quant.mb(max(abs(float(r1.parameters[k]) - float(r2.parameters[k])) / max(1e-300, abs(float(r1.parameters[k])))
+                                       for k in r1.parameters)) if list(r1.parameters) == list(r2.parameters) else 20000
+        after = (yaml_text(scat), fp.fingerprint(data), yaml_text(target),
+                 yaml_text(strat) if q["strategy"].startswith("object") else None)
+        ev["inputs_unchanged"] = bool(after == before)
+        events.append([ev])
+    ctx.notes["front_end"] = dict(seen_actions, requests=len(inits))
+    for k in ("model_built", "model_refused", "fit", "refused"):
+        if seen_actions[k] == 0 and not ctx.violations:
+            raise harness.MachineryError("front end: no %s case was exercised" % k)
+    return events
+
+
 def run(ctx):
     quick = ctx.tier == "quick"
     rng = random.Random(ctx.seed)
@@ -235,6 +447,7 @@ def run(ctx):
                 ctx.violation("fit/%s/exception" % cfg["strategy"], {"cfg": cfg, "exc": repr(e)[:300]})
     finally:
         shutil.rmtree(tmp, ignore_errors=True)
+    traces += front_end(ctx, rng, quick)
     verdicts = tracemod.validate(ctx, "FitSessionTrace", traces)
     for tr, (acc, line, clauses) in zip(traces, verdicts):
         if acc:
